@@ -15,7 +15,7 @@ func init() {
 	register(&Def{
 		ID:    "C19",
 		Level: "exploration",
-		Rule: "one shared buffer per run (5 element types, channel counts {1,2,3,8}, 24..96 frames, with spare capacity). Phase A: R<=16 readers run every read-only entry point on the whole buffer in seeded orders (Sample, Len, Cap, Length, Capacity, Channels, BitDepth, BufferIndex, Read, ReadStriped, Slice and nested Slice also up to the capacity, Channel(c) accessors and Sample, use as a conversion source into a private destination, use as the source of an Append that grows a private buffer which its owner then overwrites); the shared buffer is freshly allocated, a Slice view, grown by Append or an untouched pool buffer. Phase B: readers confined to a read-only frame range while W<=8 writers each obtain shared.Slice(lo,hi) concurrently and write only inside it (SetSample, Write, WriteStriped, conversion destination, channel-view SetSample); random yields; GOMAXPROCS in {1,4,16}; " +
+		Rule: "one shared buffer per run (5 element types, channel counts {1,2,3,8,9,17}, 24..96 frames, with spare capacity). Phase A: R<=16 readers run every read-only entry point on the whole buffer in seeded orders (Sample, Len, Cap, Length, Capacity, Channels, BitDepth, BufferIndex, Read, ReadStriped, Slice and nested Slice also up to the capacity, Channel(c) accessors and Sample, use as a conversion source into a private destination, use as the source of an Append that grows a private buffer which its owner then overwrites); the shared buffer is freshly allocated, a Slice view, grown by Append or an untouched pool buffer. Phase B: readers confined to a read-only frame range while W<=8 writers each obtain shared.Slice(lo,hi) concurrently and write only inside it (SetSample, Write, WriteStriped, conversion destination, channel-view SetSample); random yields; GOMAXPROCS in {1,4,16}; " +
 			"oracles: the Go race detector (race build; goroutines share nothing with the monitor while running) and, in both builds, every reader's result digest and the final buffer contents compared with a sequential execution of the same seeded work; " +
 			"distinct = distinct (configuration, goroutine role, seeded operation order) work lists; non-trivial = every work list (each executes library code on the shared buffer concurrently with others); " +
 			"also: writers that fill a channel view as long as the view says, striped reads from a front window into longer rows, writers that empty and refill their window sample by sample",
@@ -274,7 +274,7 @@ func runC19(c *core.Ctx) {
 	defer runtime.GOMAXPROCS(runtime.GOMAXPROCS(0))
 	for ci := 0; ci < nCfg; ci++ {
 		t := dyn.Types[typeIDs[(ci+c.Batch)%len(typeIDs)]]
-		ch := []int{1, 2, 3, 8}[r.Intn(4)]
+		ch := []int{1, 2, 3, 8, 9, 17}[r.Intn(6)] // also more channels than any small fixed-size scratch array would hold
 		frames := r.Range(24, 96)
 		large := ci%8 == 5
 		if large {
